@@ -8,6 +8,7 @@
 # @author Davide Brunato <brunato@sissa.it>
 #
 import operator
+import re
 from collections.abc import Callable
 from decimal import Decimal
 from typing import Any, cast, Union
@@ -19,6 +20,9 @@ from .any_types import AnyAtomicType
 UntypedArgType = Union[str, bytes, bool, float, Decimal, 'UntypedAtomic', AnyAtomicType]
 
 __all__ = ['UntypedAtomic']
+
+
+INTEGER_PATTERN = re.compile(r'^[ \t\n\r]*[+-]?[0-9]+[ \t\n\r]*$')
 
 
 class UntypedAtomic(AnyAtomicType):
@@ -151,6 +155,9 @@ class UntypedAtomic(AnyAtomicType):
         return self._operator(reversed_truediv, other)
 
     def __int__(self) -> int:
+        # Python's int() accepts also underscores and non-ASCII digits
+        if INTEGER_PATTERN.match(self.value) is None:
+            raise ValueError(f"invalid literal for an xs:integer: {self.value!r}")
         return int(self.value)
 
     def __float__(self) -> float:
